@@ -16,7 +16,7 @@ pub fn def_c07() -> PropDef {
         level: "exploration",
         profile: profile_c07,
         oracle: |_cfg| Box::new(C07::default()),
-        quick_runs: 12_000,
+        quick_runs: 30_000,
         thorough_runs: 300_000,
         panic_is_violation: false,
         rule: "run = multi-replica history with long chains (so that cached clocks are used), branches and merges; at probe points and at the end, for head sets H that occurred in the run (including heads of concurrent branches and merged states): all *_at(H) reads normalised by R2, hydrate(Some(H)), spans, parents_at and cursor positions at H must equal the reference interpreter over ancestors(H); fork_at(H) must have heads H and the same tree; the same reads are repeated on a clone advanced by one dummy change so that H is no longer current (clock-scoped path). non-trivial = H differs from the current heads and has >= 3 ancestors; distinct by digest of (|ancestors(H)|, state digest)",
@@ -34,7 +34,7 @@ pub fn def_c29() -> PropDef {
         level: "exploration",
         profile: profile_c29,
         oracle: |_cfg| Box::new(C29::default()),
-        quick_runs: 20_000,
+        quick_runs: 60_000,
         thorough_runs: 500_000,
         panic_is_violation: false,
         rule: "run = multi-replica history in which replicas isolate at head sets H from the run, edit and commit under isolation while remote changes keep arriving, and integrate; after every event on an isolated replica with no open transaction, reads (R2 and hydrate) must equal the reference interpreter over ancestors(H) + the isolated chain; after integrate the state must equal R1 over all applied changes (deps of isolated commits are C04's). non-trivial = remote changes arrived during isolation or >= 2 isolated commits; distinct by digest of the isolate/integrate sequence",
@@ -52,7 +52,7 @@ pub fn def_c28() -> PropDef {
         level: "exploration",
         profile: profile_c28,
         oracle: |_cfg| Box::new(C28::default()),
-        quick_runs: 30_000,
+        quick_runs: 90_000,
         thorough_runs: 800_000,
         panic_is_violation: false,
         rule: "run = multi-replica history in which transactions of arbitrary edits (object creation, deletes of conflicted values, splices, marks, blocks, first change of a new actor, under isolation) are aborted by rollback at arbitrary positions (and by crashes); a snapshot is taken when the transaction opens; after rollback save() bytes, heads and the R2 tree must equal the snapshot, and the rolled-back document and an untouched clone, given the same next transaction and commit time, must produce byte-identical changes. non-trivial = the aborted transaction had >= 2 ops of >= 2 kinds; distinct by digest of the op-kind multiset",
